@@ -150,6 +150,8 @@ def route_stages(desc, stages):
         return list(stages)
     if route == "final":
         return list(stages)[-1:]  # the direct route, last stage prefix only (cheap extra naming of a large space)
+    if route == "reread":
+        return [k for k in stages if k >= 2]  # the graph after k stages, written to a dictionary and read back
     at = int(route.split("@")[1])
     if route.startswith("alias"):
         return [k for k in stages if k == at]
@@ -181,6 +183,10 @@ def staged(desc, payload, k):
         return g, orig_blocks
     if route == "final":
         route = "direct"
+    if route == "reread":
+        for st in STAGES[:k]:
+            getattr(g, st)()
+        return reload(g, "dict"), orig_blocks
     if route != "direct":
         how = "yaml" if route.startswith("y") else "dict"
         at = int(route.split("@")[1])
